@@ -384,7 +384,7 @@ class AlgebraProfile(FieldProfile):
     prop = "C03"
     name = "algebra"
     predict = ("mesh", "array")
-    required_probes = ("same_operand_twice", "shared_mesh", "commute_scalar_vector", "equal_but_distinct_meshes", "evaluate_update_evaluate", "inplace_ufunc")
+    required_probes = ("same_operand_twice", "shared_mesh", "commute_scalar_vector", "equal_but_distinct_meshes", "evaluate_update_evaluate", "inplace_ufunc", "resampled_same_region")
     rule = (
         "one case = one seeded program (3-30 operator applications, results fed back as operands: DAGs) over unary -/+/abs, "
         "binary + - * / ** with field / number / constant vector / per-cell array on either side, dot, cross, angle, <<, complex "
@@ -439,7 +439,7 @@ class AlgebraProfile(FieldProfile):
                         return dict(src, op="Mesh.new", out=out)
                 return self.ensure_mesh(rng, st, cfg["max_cells"], 1)
             ms = rng.choice(meshes)
-            o = draw_field_new(rng, ms, out, st.h[ms].box.v, nvdim=rng.choice(cfg["nvdims"]), dtypes=cfg["dtypes"], p_unmapped=0.1)
+            o = draw_field_new(rng, ms, out, st.h[ms].box.v, nvdim=rng.choice(cfg["nvdims"]), dtypes=cfg["dtypes"], p_unmapped=0.1, p_scalar_label=0.3)
             if o["value"].get("kind") == "idx":
                 o["value"] = {"kind": "rint", "seed": rng.randrange(2**31), "lo": -6, "hi": 7, "step": rng.choice([1.0, 0.5, 0.25])}
             return o
@@ -462,6 +462,14 @@ class AlgebraProfile(FieldProfile):
             st.stats.probe("evaluate_update_evaluate")
             return {"op": "A.vecop", "a": a, "b": b, "f": f, "out": out, "operator": False}
         if rng.random() < cfg["p_reject"] and len(fields) >= 2:
+            if rng.random() < 0.3 and max(ha.box.v.n) > 1:
+                # the same region, other cell counts (1 along some axes: shapes numpy would
+                # broadcast); the finer field goes on the left of the refused combination
+                ones = [rng.random() < 0.5 for _ in ha.box.v.n]
+                if not any(o1 and k > 1 for o1, k in zip(ones, ha.box.v.n)):
+                    ones[max(range(len(ones)), key=lambda k: ha.box.v.n[k])] = True
+                queue.append({"op": "A.reject", "a": a, "b": out, "f": rng.choice(["add", "sub", "mul", "truediv", "dot", "cross", "angle"]), "fault": "rejected_args"})
+                return {"op": "A.resample", "on": a, "ones": ones, "out": out}
             b = rng.choice([s for s in fields if s != a])
             return {"op": "A.reject", "a": a, "b": b, "f": rng.choice(["add", "sub", "mul", "truediv", "dot", "cross", "angle", "lshift"]), "fault": "rejected_args"}
         r = rng.random()
@@ -614,7 +622,8 @@ class ValidityProfile(FieldProfile):
                 how = {"t": t, "d": rng.randrange(nd), "lo": rng.randint(0, 2), "hi": rng.randint(0, 2), "mode": rng.choice(["constant", "wrap", "edge", "symmetric", "reflect"])}
             else:
                 # resample to a multiple or a divisor so that no new centre sits on an old face
-                how = {"t": t, "n": [k * rng.choice([1, 2, 3]) if rng.random() < 0.7 else max(1, k // 2) | 1 for k in mm.n]}
+                # (halving an even count puts every new centre on an old face: there the data decides, see D.sel)
+                how = {"t": t, "n": [rng.choice([k, 2 * k, 3 * k, max(1, k // 2), max(1, k // 2), max(1, k // 2) | 1, rng.randint(1, 2 * k)]) for k in mm.n]}
             return {"op": "D.sel", "on": a, "how": how, "out": out}
         if nd >= 2:
             ax1, ax2 = rng.sample(list(mm.region.dims), 2)
